@@ -1,12 +1,12 @@
 (* C04 -- every request gets exactly one final answer, in bounded time.
    Theorems over Model/Daemon.v (the whole daemon as a transducer per pass of _select_loop, tied to the real powermand by the
    per-pass replay R-SIM), Model/Client.v (single client stream) and Model/Device.v (timers).  Quantification: every
-   configuration of coprocess devices satisfying the parser's guarantees (cfg_ok), every list of rounds (= every interleaving
+   configuration of devices of any transport satisfying the parser's guarantees (cfg_ok), every list of rounds (= every interleaving
    of client connections, input bytes, closes, device bytes, faults, connect outcomes and clock steps), every oracle. *)
 From Coq Require Import List NArith ZArith Bool Permutation.
 From PM Require Import Base.Bytes Base.Outcome Gen.GenConsts Model.ScriptAst Model.Enqueue Model.Script Model.Device Model.DevHarness
                        Model.Client Model.CliWorld Model.Daemon Spec.Proto
-                       Proofs.ClientProto Proofs.ClientStream Proofs.DeviceInv Proofs.DeviceRun Proofs.DeviceTimer Proofs.DaemonLedger Proofs.DaemonPending Model.Xpoll Proofs.XpollProofs.
+                       Proofs.ClientProto Proofs.ClientStream Proofs.DeviceInv Proofs.DeviceRun Proofs.DeviceInvG Proofs.DeviceRunG Proofs.DeviceTimer Proofs.DaemonLedger Proofs.DaemonPending Model.Xpoll Proofs.XpollProofs.
 From PM Require Properties.C07.
 Import ListNotations.
 Local Open Scope Z_scope.
@@ -20,7 +20,8 @@ Section C04.
   Variable compress : list text -> text.
   Variable short_circuit : bool.
 
-  (* The cross-layer invariant, from start-up, over EVERY history of passes (coprocess devices; no telnet option replies):
+  (* The cross-layer invariant, from start-up, over EVERY history of passes (every transport: for tcp devices the telnet
+     filter's option replies land in dev->to, which DInvG does not constrain - crash-freedom there rests on the repair F38):
        - the pass function never returns Exit / Abort / MemErr: in particular _act_finish always finds the command it
          completes (assert(c->cmd != NULL) is unreachable) and no device-layer assert fires;
        - for every live client:  pending = number of its actions still queued on the devices   (no completion is lost,
@@ -30,12 +31,12 @@ Section C04.
          i.e. exactly one terminal (1xx/2xx) reply per request line, the outstanding one being the command in progress;
        - every time-out handed to poll is strictly positive (no zero-time-out spin requested by the device layer). *)
   Theorem C04_daemon_invariant : forall st now plans rs,
-    boot compress st -> all_pipe st -> rounds_plain rs -> Z.of_nat (length rs) < INT_MAX - 1 ->
+    boot compress st -> Z.of_nat (length rs) < INT_MAX - 1 ->
     exists st1 o, dinit st now plans = Ok (st1, o) /\
       match drun expand_str ranged_sorted ranged_plain sorted rmatch compress short_circuit st1 rs [] with
       | Ok (st', outs) =>
           Forall (fun x => cli_ok x /\ pend (dc x) = cnt (cid x) (qall (dm_devs st'))) (dm_clients st') /\
-          NoDup (ids st') /\ Forall (DInvR compress) (dm_devs st') /\
+          NoDup (ids st') /\ Forall (DInvRG compress) (dm_devs st') /\
           Forall (fun o => forall t, do_tmo o = Some t -> 0 < t) outs
       | Hang _ => True
       | _ => False
@@ -43,9 +44,9 @@ Section C04.
   Proof. exact (daemon_invariant expand_str ranged_sorted ranged_plain sorted rmatch compress short_circuit). Qed.
 
   (* one pass re-establishes the invariant (the induction step, usable from any state that satisfies it) *)
-  Theorem C04_pass_invariant : forall st r, DPInv compress st -> all_pipe st -> pins_plain (r_dev r) -> 1 <= dm_seq st < INT_MAX ->
+  Theorem C04_pass_invariant : forall st r, DPInv compress st -> 1 <= dm_seq st < INT_MAX ->
     match dstep expand_str ranged_sorted ranged_plain sorted rmatch compress short_circuit st r with
-    | Ok (st', o) => DPInv compress st' /\ all_pipe st' /\ (forall t, do_tmo o = Some t -> 0 < t) /\ length (dm_devs st') = length (dm_devs st) /\
+    | Ok (st', o) => DPInv compress st' /\ (forall t, do_tmo o = Some t -> 0 < t) /\ length (dm_devs st') = length (dm_devs st) /\
                      dm_seq st <= dm_seq st' <= dm_seq st + 1
     | Hang _ => True
     | _ => False
@@ -106,16 +107,19 @@ Proof. reflexivity. Qed.
    silent, the action times out: exactly one terminal reply (210) and the invariant's hypotheses hold ---------------- *)
 Definition ex_st : daemon :=
   mkDaemon [bslit "n1"] [] [bslit "spec"] [true] [C07.ex_dev] [] 1 [] (bslit "2.4") [Telnet.telnet_init].
-Example C04_boot_example : boot C07.ex_compress ex_st /\ all_pipe ex_st.
+Example C04_boot_example : boot C07.ex_compress ex_st.
 Proof.
-  split.
-  - split; [reflexivity|]. split; [reflexivity|]. constructor; [|constructor].
-    destruct (mk_device_inv C07.ex_compress (bslit "d0") [mkPlug (bslit "p1") (Some (bslit "n1"))]
+  split; [reflexivity|]. split; [reflexivity|]. constructor; [|constructor].
+    destruct (mk_device_invG C07.ex_compress (bslit "d0") [mkPlug (bslit "p1") (Some (bslit "n1"))]
                [(PM_LOG_IN, [Send (bslit "login\n"); Expect (bslit "ok")]); (PM_POWER_ON, [Send (bslit "on %s\n"); Expect (bslit "done")])] 5000000 0
                C07.C07_cfg_ok_example) as [H1 H2].
     split; [exact H1|]. split; [exact H2|reflexivity].
-  - intros [|[|i]]; reflexivity.
 Qed.
+(* the same device behind a tcp transport (telnet filter active) *)
+Definition ex_st_tcp : daemon :=
+  mkDaemon [bslit "n1"] [] [bslit "spec"] [false] [C07.ex_dev] [] 1 [] (bslit "2.4") [Telnet.telnet_init].
+Example C04_boot_example_tcp : boot C07.ex_compress ex_st_tcp.
+Proof. exact C04_boot_example. Qed.
 Definition ex_expand (t : text) : option (list text) := Some [t].
 Definition ex_join (l : list text) : text := concat l.
 Definition ex_rounds : list round :=
@@ -128,7 +132,6 @@ Example C04_run_example :
   | Ok (st1, _) =>
     match drun ex_expand ex_join ex_join (fun l => l) C07.ex_rmatch C07.ex_compress false st1 ex_rounds [] with
     | Ok (st', outs) =>
-        rounds_plain ex_rounds /\
         match dm_clients st' with
         | [x] => busy (dc x) = false /\ dc_lines x = 1%nat /\
                  (let tail := CP_ERR_COM_COMPLETE ++ CP_PROMPT in
@@ -139,7 +142,28 @@ Example C04_run_example :
     end
   | _ => False
   end.
-Proof. vm_compute. split; [repeat constructor|]. split; [reflexivity|]. split; reflexivity. Qed.
+Proof. vm_compute. split; [reflexivity|]. split; reflexivity. Qed.
+
+(* ... and a run of the tcp variant in which the device sends IAC DO ECHO in front of its reply: the pass is Ok, the filter
+   keeps `ok` for the script and the option reply IAC WONT ECHO is written to the device after the queued send *)
+Definition pin_rd (b : text) : passin := mkPassin false false false false true (Some b) None true [] None.
+Definition pin_wr (n : nat) : passin := mkPassin false false false true false None (Some n) true [] None.
+Definition ex_rounds_tcp : list round :=
+  [ mkRound 1000000 true [] [pin_wr 100];
+    mkRound 1100000 false [mkCin false true false (Some (bslit "on n1" ++ [LF])) None] [pin_rd ([255; 253; 1]%N ++ bslit "ok")];
+    mkRound 1200000 false [] [pin_wr 100] ].
+Example C04_run_example_tcp :
+  match dinit ex_st_tcp 1000000 [[ConnNow; ConnNow; ConnNow]] with
+  | Ok (st1, _) =>
+    match drun ex_expand ex_join ex_join (fun l => l) C07.ex_rmatch C07.ex_compress false st1 ex_rounds_tcp [] with
+    | Ok (st', outs) =>
+        map do_evs (skipn 1 outs) = [[SysDev 0 (EvRead 5)]; [SysDev 0 (EvWrote (bslit "login\n" ++ [255; 252; 1]%N))]] /\
+        length (dm_clients st') = 1%nat
+    | _ => False
+    end
+  | _ => False
+  end.
+Proof. vm_compute. split; reflexivity. Qed.
 
 Print Assumptions C04_daemon_invariant.
 Print Assumptions C04_pass_invariant.
